@@ -100,15 +100,82 @@ def run(ctx, rep):
                     oka = True
             rep.check("R8.2", "%s:append-received" % tag, oka, "%s: the received bytes must be appended to the adaptor's own buffer" % tag, b.loc(t["line"]))
     rep.floor("R8.1", 1 + 2 * len([1 for f, _n, _t in READERS if f in present]))
+    for feat, name, tag in READERS:
+        if feat in present and ctx.mir.body(name) is not None:
+            serve_exact(ctx, rep, name, tag)
+    rep.floor("R8.4", 3 * len([1 for f, _n, _t in READERS if f in present]))
     # R8.3: one send per write
     before = len(rep.instances)
     c06.adaptors(ctx, rep)
+    keep = []
     for i in rep.instances[before:]:
-        if i["rule"] == "R6.3":
+        if i["rule"] == "R6.3" and "websocket" not in i["key"]:      # the WebSocket writer belongs to C20/R20.2
             i["rule"] = "R8.3"
             i["key"] = i["key"].replace("R6.3:", "R8.3:")
+            keep.append(i)
+    rep.instances[before:] = keep
     rep.floors.pop("R6.3", None)
     rep.floor("R8.3", 1)
+
+
+APPEND = re.compile(r"BytesMut::(extend_from_slice|put_slice|put|reserve)$|Extend::extend$|BufMut::(put_slice|put)$")
+SERVE = re.compile(r"Buf::copy_to_bytes$|BytesMut::split_to$|Buf::advance$")
+PREFIX = {"udp-blocking": "insim::net::blocking_impl::udp::UdpStream::", "udp-tokio-async": "insim::net::tokio_impl::udp::UdpStream::",
+          "udp-tokio-sync": "insim::net::tokio_impl::udp::UdpStream::"}
+
+
+def serve_exact(ctx, rep, name, tag):
+    """R8.4: the adaptor buffer is changed only by appending received bytes and by serving the caller; a serve removes exactly
+    min(caller's room, buffered) bytes from the front and those are the bytes the caller gets - so the part of a datagram that
+    does not fit the caller's room stays buffered for the next read (private helpers of the adaptor are analysed in place)."""
+    from mirq import inline_calls
+    b0 = ctx.mir.body(name)
+    pre = PREFIX[tag]
+    b = inline_calls(b0, lambda d: d.startswith(pre) and "{closure" not in d)
+    muts = []
+    for bb, t in b.calls():
+        for ai, a in enumerate(t["args"]):
+            if t["argtys"][ai].startswith("&mut") and is_self_buffer(b.origin(a)):
+                muts.append((bb, t, callee(t)[0] or ""))
+    other = sorted({d for _bb, _t, d in muts if not APPEND.search(d) and not SERVE.search(d)})
+    rep.check("R8.4", "%s:only-append-and-serve" % tag, not other,
+              "%s: the adaptor buffer is changed by %s; only appending received bytes and serving a counted prefix may change it (anything else can drop the undelivered rest of a datagram)" % (tag, other),
+              b0.loc(), sample={"adaptor": tag, "mutators": sorted({d for _bb, _t, d in muts})})
+    serves = [(bb, t, d) for bb, t, d in muts if SERVE.search(d)]
+    rep.check("R8.4", "%s:serve-site" % tag, len(serves) >= 1, "%s: no counted removal from the adaptor buffer found" % tag, b0.loc(), nontrivial=False)
+    okc = bool(serves)
+    why = ""
+    for bb, t, d in serves:
+        co = b.origin(t["args"][1])
+        x = co
+        while x[0] == "cast":
+            x = x[4]
+        good = x[0] == "call" and (x[1].endswith("Ord::min") or x[1].endswith("cmp::min")) and len(x[3]) == 2
+        if good:
+            kinds = set()
+            for a in x[3]:
+                aa = a
+                while aa[0] == "cast":
+                    aa = aa[4]
+                if aa[0] == "call" and aa[1].endswith(("::len", "remaining")) and aa[3]:
+                    kinds.add("own" if is_self_buffer(aa[3][0]) else ("caller" if strip_refs(aa[3][0])[0] == "arg" else "other"))
+                else:
+                    kinds.add("other")
+            good = kinds == {"own", "caller"}
+        if not good:
+            okc = False
+            why = "%s removes %s bytes" % (d.split("::")[-1], fmt_origin(co))
+    rep.check("R8.4", "%s:serve-count" % tag, okc,
+              "%s: a read must take exactly min(caller's room, buffered bytes) from the front of the adaptor buffer (%s)" % (tag, why), b0.loc(),
+              sample={"adaptor": tag, "serves": [d for _bb, _t, d in serves]})
+    # the bytes handed to the caller are the removed prefix
+    outs = [(bb, t) for bb, t in b.calls_to(r"Buf::copy_to_slice$|ReadBuf::<'a>::put_slice$|copy_from_slice$")]
+    okd = False
+    for bb, t in outs:
+        src = b.origin(t["args"][0]) if callee(t)[0].endswith("copy_to_slice") else b.origin(t["args"][1])
+        if any(c[4] in [sb for sb, _t, _d in serves] for c in origin_calls(src)):
+            okd = True
+    rep.check("R8.4", "%s:served-bytes" % tag, okd, "%s: the bytes given to the caller must be the prefix removed from the adaptor buffer" % tag, b0.loc())
 
 
 def is_self_buffer(o):
